@@ -24,6 +24,8 @@ TAG_PROPERTY = {
     "mon.report": "C16", "strA": "C16", "hist": "C16",
     "draws": "C12",
     "asserts": "C11",
+    "buf": "C08", "mon.load.act": "C08", "mon.load.res": "C08", "mon.load.exit": "C08", "mon.load.enter": "C08",
+    "ret": "C09", "mon.replay.act": "C09", "mon.replay.res": "C09",
 }
 CONFIG_TAGS = {"act", "isA", "res"}
 UNATTRIBUTED = {"ev.life", "ev.report", "ev.all"}
@@ -97,6 +99,14 @@ def campaign(tier, seed=SEED, log=print):
                 if crash:
                     crashes.append(dict(file=f, rc=crash[0], stderr=crash[1][-1500:], records=n))
                 files.append(f)
+            if variant == "plain":
+                for kind, fn in (("replica", explore.replica_walk), ("copy", explore.copy_walk)):
+                    f = os.path.join(cdir, "%s-%s-%s.ndjson" % (fxname, variant, kind))
+                    s = (seed * 31337 + sum(map(ord, fxname + kind))) & 0x7fffffff
+                    n, crash = fn(fx, exe, f, s, max(150, nrec // 6))
+                    if crash:
+                        crashes.append(dict(file=f, rc=crash[0], stderr=crash[1][-1500:], records=n))
+                    files.append(f)
             jobs.append((fx, fxname, variant, files, crashes))
     log("campaign %s: walks done in %.0fs" % (key, time.time() - t0))
     for fx, fxname, variant, files, crashes in jobs:
@@ -106,8 +116,14 @@ def campaign(tier, seed=SEED, log=print):
             run["checked"] += r["checked"]
             if r["error"]:
                 run["tlc_errors"].append(dict(file=r["file"], msg=r["error"][-1500:]))
+            calls = {}
+            if r["diffs"]:
+                with open(r["file"]) as fh:
+                    for i, line in enumerate(fh, 1):
+                        calls[i] = json.loads(line)["a"][0]
             for dd in r["diffs"]:
-                run["diffs"].append(dict(file=r["file"], l=dd["l"], tag=dd["tag"], detail=[x[:600] for x in dd["detail"]]))
+                run["diffs"].append(dict(file=r["file"], l=dd["l"], tag=dd["tag"], call=calls.get(dd["l"], ""),
+                                         detail=[x[:600] for x in dd["detail"]]))
             for (l, note) in r["notes"]:
                 run["notes"].setdefault(str(note), []).append([r["file"], l])
         shutil.rmtree(d, ignore_errors=True)
@@ -154,8 +170,16 @@ def vetoed_records(run):
 def route(run, d, rec_kinds=None):
     """property id for a diff, or None (unattributed)"""
     tag = d["tag"]
-    if tag in CONFIG_TAGS:
-        return "C04" if (d["file"], d["l"]) in vetoed_records(run) else "C02"
+    call = d.get("call", "")
+    if tag in CONFIG_TAGS or (call in ("load", "save", "replay", "replayenter", "copy") and tag in ("sub", "isR", "isS", "ev.life", "ev.all", "strA", "hist")):
+        if call in ("load", "save"):
+            return "C08"
+        if call in ("replay", "replayenter"):
+            return "C09"
+        if call == "copy":
+            return "C10"
+        if tag in CONFIG_TAGS:
+            return "C04" if (d["file"], d["l"]) in vetoed_records(run) else "C02"
     return TAG_PROPERTY.get(tag)
 
 
